@@ -10,12 +10,18 @@ from mon import gen
 METRICS = ["cityblock", "chebyshev", "euclidean", "sqeuclidean"]
 
 
-def gen_simulation(rs, n_rows=(24, 60), force_nn_pair=None, absent_arm=False, force_empty=False):
+def gen_simulation(rs, n_rows=(24, 60), force_nn_pair=None, absent_arm=False, force_empty=False, data_metrics=False):
     n_arms = int(rs.integers(2, 5))
     # non-integral float labels: sklearn's confusion_matrix rejects them ("continuous"); integral ones are accepted
     labels = gen.pick(rs, ["int", "str", "negint", "bigfloat"])
     arms = list(gen.LABELS[labels][:n_arms])
     n = int(rs.integers(n_rows[0], n_rows[1] + 1))
+    # incl. sizes for which 1 - test_size is not exact in binary floating point (0.8, 0.9, 0.55, 0.15, 0.2)
+    test_size = float(gen.pick(rs, [0.1, 0.25, 0.3, 0.5, 0.7, 0.8, 0.9, 0.55, 0.15, 0.2]))
+    if test_size in (0.8, 0.9, 0.55, 0.15, 0.2) and rs.integers(2):
+        n = max(20, (n // 20) * 20)  # ... with a row count for which n * test_size is a whole number
+    while int(n * (1 - test_size)) < 8:
+        n += 20  # every learner needs a handful of training rows
     nf = int(gen.pick(rs, [2, 3]))
     n_bandits = int(rs.integers(2, 6))
     nn_pair = bool(rs.integers(2)) if force_nn_pair is None else force_nn_pair
@@ -48,6 +54,9 @@ def gen_simulation(rs, n_rows=(24, 60), force_nn_pair=None, absent_arm=False, fo
             choices = ([m for m in METRICS if m not in used_metrics] or METRICS) if rs.integers(2) else (used_metrics or METRICS)
             c["np"]["metric"] = gen.pick(rs, choices)
             used_metrics.append(c["np"]["metric"])
+            if data_metrics and rs.integers(4) == 0:
+                # a metric whose scale is estimated from the rows scipy is handed in one call (standardised euclidean)
+                c["np"]["metric"] = "seuclidean"
             if p == "knn":
                 c["np"]["k"] = int(gen.pick(rs, [1, 2, 3]))
         if p in ("radius", "knn", "lsh") and rs.integers(4) == 0:
@@ -84,7 +93,9 @@ def gen_simulation(rs, n_rows=(24, 60), force_nn_pair=None, absent_arm=False, fo
                     if cand:
                         j_ = min(cand, key=lambda k_: dd_[k_])
                 r_ = float(cdist(np.asarray([X[i_]], dtype=float), np.asarray([X[j_]], dtype=float), metric=c["np"]["metric"])[0][0])
-                if r_ > 0:
+                if r_ > 0 and c["np"]["metric"] not in METRICS:
+                    c["np"]["radius"] = r_
+                elif r_ > 0:
                     from mon.oracles import nhood
                     key_ = int(nhood.dist_key(c["np"]["metric"], X[i_], X[j_]))
                     if rs.integers(2):
@@ -92,7 +103,7 @@ def gen_simulation(rs, n_rows=(24, 60), force_nn_pair=None, absent_arm=False, fo
                     else:
                         # a hair (2^-40 relative) below that distance: rows at exactly that distance are outside
                         c["np"]["radius"], c["np"]["radius_key"] = r_ * (1.0 - 2.0 ** -40), key_ - 0.5
-    test_size = float(gen.pick(rs, [0.1, 0.25, 0.3, 0.5, 0.7]))
+
     n_test = math.ceil(n * test_size)
     is_ordered = bool(rs.integers(2))
     bs_choices = [0, 0, 1, 2, 3, 7, n_test - 1, n_test]
